@@ -6,6 +6,8 @@ isolated copy of /verif, and stores everything under /verif/seeded/<name>/."""
 import json, os, shutil, subprocess, sys, time
 src = os.path.abspath(sys.argv[1])
 name = os.path.basename(src.rstrip("/"))
+if "--name" in sys.argv:
+    name = sys.argv[sys.argv.index("--name") + 1]
 meta = json.load(open(os.path.join(src, "meta.json")))
 prop = meta.get("property", name.split("-")[0])
 checks = [prop]
@@ -63,8 +65,22 @@ finally:
 dst = os.path.join("/verif/seeded", name)
 os.makedirs(dst, exist_ok=True)
 for f in os.listdir(src):
-    if os.path.isfile(os.path.join(src, f)):
+    if os.path.isfile(os.path.join(src, f)) and f != "meta.json":
         shutil.copy(os.path.join(src, f), os.path.join(dst, f))
+prev_meta = {}
+if os.path.exists(os.path.join(dst, "meta.json")):
+    try:
+        prev_meta = json.load(open(os.path.join(dst, "meta.json")))
+    except Exception:
+        prev_meta = {}
+hist = prev_meta.get("history", [])
+if prev_meta.get("verification"):
+    pv = prev_meta["verification"]
+    hist.append({"repo_head": pv.get("repo_head"), "checks": {c: {"exit": r.get("exit"), "lines": r.get("lines", [])[-3:]} for c, r in pv.get("checks", {}).items()}})
+if hist:
+    meta["history"] = hist
+if prev_meta.get("note"):
+    meta["note"] = prev_meta["note"]
 meta["verification"] = res
 meta["what_i_ran"] = ["git worktree add /tmp/ts_%s HEAD; git apply patch.diff" % name, "python3 /verif/tools/baseline_check.py <worktree>",
                       "go test -run TestSeed . (with and without the patch)", "VERIF_REPO=<worktree> ./check <id> quick in an isolated copy of /verif"]
